@@ -4,6 +4,7 @@ CONSTANTS
   Caps = {1, 2}
   MaxLen = 2
   NilPuts = TRUE
+  Canon = FALSE
   Conc = TRUE
   Threads = {1, 2}
 INIT Init
